@@ -127,10 +127,17 @@ def run(chk):
     path_differential(chk, 20000 if chk.tier == "quick" else 1000000)
     if len(chk.distinct) < 200:
         raise common.Broken("degenerate generator: too few edges created by different spellings")
+    # CLI level: the relation as `gwf info` (json and pretty) shows it, next to status / dry-run on the same project
+    import history_check as HC
+    rule, assume = chk.rule, chk.assumptions
+    HC.run_prop(chk, "C03", ["C03", "C05", "C03"], 60 if chk.tier == "quick" else 900, rule, assume, lambda r: True)
 
 
 def replay(chk, data):
     chk.rule = RULE
+    if isinstance(data["input"], dict) and "focus" in data["input"]:
+        import history_check as HC
+        return HC.replay_prop(chk, "C03", data, RULE)
     if isinstance(data["input"], dict):
         check_graphs(chk, [data["input"]], "replay")
     return chk.finish()
